@@ -43,7 +43,7 @@ func mustJSON(v interface{}) json.RawMessage {
 
 var (
 	hNS     = []string{"ns0", "ns1", "ns2"}
-	hOwners = []string{"o0", "o1", "o2", ""}
+	hOwners = []string{"o0", "o1-6d4cf56db6", "o2", ""} // o1 is a Deployment's ReplicaSet: named after the template hash
 	hProtos = []string{"TCP", "UDP", "SCTP"}
 	hPorts  = []string{"80", "8080", "53", "443"}
 	hIPs    = []string{"10.0.0.1", "192.168.1.5", "172.16.5.9"}
@@ -197,6 +197,14 @@ func (g *hGen) mkPod(ns, name string) *corev1.Pod {
 		if r.chance(1, 2) {
 			ports = append(ports, corev1.ContainerPort{Name: "http", ContainerPort: pick(r, []int32{80, 8080}), Protocol: corev1.ProtocolTCP})
 		}
+	}
+	if strings.HasSuffix(owner, "-6d4cf56db6") {
+		// and its pods carry the hash as a label, whatever else they are labelled with
+		withHash := map[string]string{"pod-template-hash": "6d4cf56db6"}
+		for k, v := range labels {
+			withHash[k] = v
+		}
+		labels = withHash
 	}
 	p := &corev1.Pod{TypeMeta: metav1.TypeMeta{APIVersion: "v1", Kind: "Pod"}, ObjectMeta: metav1.ObjectMeta{Name: name, Namespace: ns, Labels: labels},
 		Spec:   corev1.PodSpec{Containers: []corev1.Container{{Name: "c", Image: "i", Ports: ports}}},
